@@ -311,6 +311,71 @@ type c25State struct {
 	path  []string
 }
 
+// c25Viol is a violating transition: head = clause + operation (+ argument class), fclass = the
+// features of the file the operation started from (empty for violations of the initial load).
+type c25Viol struct {
+	head, fclass, detail string
+	depth                int
+}
+
+// c25Keys turns the violating transitions of all searches into violations.  The key names the
+// LEAST special file class on which clause+operation fails: if it fails on a file exactly as the
+// code itself writes it ("plain"/"empty"), the special file shapes are not named separately.
+func c25Keys(vs []c25Viol) []mc.Violation {
+	var out []mc.Violation
+	byHead := map[string][]c25Viol{}
+	var heads []string
+	for _, v := range vs {
+		if v.depth < 0 {
+			out = append(out, mc.Violation{Property: "C25", Key: v.head, Detail: v.detail})
+			continue
+		}
+		if _, ok := byHead[v.head]; !ok {
+			heads = append(heads, v.head)
+		}
+		byHead[v.head] = append(byHead[v.head], v)
+	}
+	sort.Strings(heads)
+	for _, h := range heads {
+		g := byHead[h]
+		// shortest sequence first, then file class name: deterministic minimal case per key
+		sort.SliceStable(g, func(i, j int) bool {
+			if g[i].depth != g[j].depth {
+				return g[i].depth < g[j].depth
+			}
+			return g[i].fclass < g[j].fclass
+		})
+		var plain *c25Viol
+		for i := range g {
+			if g[i].fclass == "plain" || g[i].fclass == "empty" {
+				plain = &g[i]
+				break
+			}
+		}
+		if plain != nil {
+			var also []string
+			seen := map[string]bool{}
+			for _, v := range g {
+				if !seen[v.fclass] {
+					seen[v.fclass] = true
+					also = append(also, v.fclass)
+				}
+			}
+			sort.Strings(also)
+			out = append(out, mc.Violation{Property: "C25", Key: h + ":file=plain", Detail: plain.detail + "\nfile classes on which this fails: " + strings.Join(also, ", ")})
+			continue
+		}
+		seen := map[string]bool{}
+		for _, v := range g {
+			if !seen[v.fclass] {
+				seen[v.fclass] = true
+				out = append(out, mc.Violation{Property: "C25", Key: h + ":file=" + v.fclass, Detail: v.detail})
+			}
+		}
+	}
+	return out
+}
+
 type c25ShapeResult struct {
 	fixpoint    bool
 	shape       string
@@ -319,7 +384,7 @@ type c25ShapeResult struct {
 	pruned      int
 	perDepth    []int
 	outcomes    map[string]int
-	viol        []mc.Violation
+	viol        []c25Viol
 	intern      []string
 	samples     []any
 }
@@ -357,7 +422,14 @@ func c25Explore(sh c25Shape, ops []c25Op, depth int) *c25ShapeResult {
 			return
 		}
 		seenKey[key] = true
-		res.viol = append(res.viol, mc.Violation{Property: "C25", Key: key, Detail: detail})
+		res.viol = append(res.viol, c25Viol{head: key, depth: -1, detail: detail})
+	}
+	addT := func(head, fclass string, depth int, detail string) {
+		if seenKey[head+"|"+fclass] {
+			return
+		}
+		seenKey[head+"|"+fclass] = true
+		res.viol = append(res.viol, c25Viol{head: head, fclass: fclass, depth: depth, detail: detail})
 	}
 	describe := func(st *c25State, o *c25Op) string {
 		seq := append([]string{}, st.path...)
@@ -434,12 +506,10 @@ func c25Explore(sh c25Shape, ops []c25Op, depth int) *c25ShapeResult {
 				if o.Arg != "" && o.Arg != "A" && o.Arg != "B" {
 					where += ":arg=" + o.Arg
 				}
-				where += ":file=" + fclass
-				nviol := len(res.viol)
 				bad := false
 				report := func(clause, what string) {
 					bad = true
-					addV(clause+where, fmt.Sprintf("%s\n%s\nreturned: %v\nfile before: %q\nfile after:  %q\nmodel before: %v\nmemory before: %v\nmemory after:  %v\nfresh policy from file: %v (err=%v)",
+					addT(clause+where, fclass, len(st.path)+1, fmt.Sprintf("%s\n%s\nreturned: %v\nfile before: %q\nfile after:  %q\nmodel before: %v\nmemory before: %v\nmemory after:  %v\nfresh policy from file: %v (err=%v)",
 						what, describe(st, &o), opErr, st.file, postFile, st.model.preds(), st.preds, postPreds, freshPreds, freshErr))
 				}
 
@@ -527,7 +597,6 @@ func c25Explore(sh c25Shape, ops []c25Op, depth int) *c25ShapeResult {
 				if bad {
 					res.pruned++
 					res.outcomes["violation"]++
-					_ = nviol
 					continue
 				}
 				res.outcomes[outcome]++
@@ -591,6 +660,7 @@ func TestC25(t *testing.T) {
 	union := map[[32]byte]bool{}
 	perShape := map[string]any{}
 	pruned := 0
+	var allViol []c25Viol
 	fixpoint := true
 	for _, r := range results {
 		fixpoint = fixpoint && r.fixpoint
@@ -602,11 +672,12 @@ func TestC25(t *testing.T) {
 		for k, v := range r.outcomes {
 			rep.Outcomes[k] += v
 		}
-		rep.Violations = append(rep.Violations, r.viol...)
+		allViol = append(allViol, r.viol...)
 		rep.Internal = append(rep.Internal, r.intern...)
 		rep.Samples = append(rep.Samples, r.samples...)
 		perShape[r.shape] = map[string]any{"states": len(r.states), "transitions": r.transitions, "new_states_per_depth": r.perDepth, "violating_transitions_not_expanded": r.pruned, "fixpoint": r.fixpoint}
 	}
+	rep.Violations = c25Keys(allViol)
 	if len(rep.Samples) > 12 {
 		rep.Samples = rep.Samples[:12]
 	}
